@@ -176,13 +176,17 @@ def c03_clauses(case, truth, rec, par):
   return out, info
 
 
+NEAR_RTOL = [1e-9]     # relative difference of the last score entry below which two scores count as tied (float noise);
+                       # a case whose panel is known to be well conditioned may lower it for its own comparisons
+
+
 def _near(a, b):
   """Scores equal up to float noise in the continuous entries (treated as a tie)."""
   if a[:4] != b[:4]:
     return False
   if abs(a[4] - b[4]) > 1e-12:
     return False
-  return util.close(a[5], b[5], rtol=1e-9)
+  return util.close(a[5], b[5], rtol=NEAR_RTOL[0])
 
 
 # ------------------------------------------------------------------------------ C04
